@@ -54,7 +54,7 @@ theorem InvA.step_local {scripts : List (List Op)} {s s' : St} {i : Nat} {p p' :
 theorem fetch_LocA {scripts : List (List Op)} {s : St} {i : Nat} {p : Proc} {sc : List Op}
     (hsc : scripts[i]? = some sc) (hd : sc.drop p.results.length = p.script) (hnf : Op.flush ∉ p.script)
     (hpc : p.pc = .idle) (hdep : p.depth = 0) (hlock : s.lock ≠ some i) (hid : ∀ w, p.ident = some w → w < s.paths.length)
-    (hopen : p.wOpen = p.ident.isSome) : LocA scripts s i (fetch p) := by
+    (hopen : p.wOpen = true → p.ident.isSome = true) : LocA scripts s i (fetch p) := by
   unfold fetch
   split
   · rename_i hs
@@ -73,6 +73,7 @@ theorem fetch_LocA {scripts : List (List Op)} {s : St} {i : Nat} {p : Proc} {sc 
     | contig => constructor <;> simp_all [curOp, dep, isF, isO, isS]
     | iter => constructor <;> simp_all [curOp, dep, isF, isO, isS]
     | flush => simp_all
+    | close => constructor <;> simp_all [curOp, dep, isF, isO, isS]
 
 set_option linter.unusedSimpArgs false
 
@@ -86,8 +87,9 @@ theorem drop_succ_of_drop_cons {α : Type} {l r : List α} {a : α} {n : Nat} (h
   rw [← List.drop_drop, h]; rfl
 
 theorem finish_LocA {scripts : List (List Op)} {s s' : St} {i : Nat} {p p0 : Proc} (r : Res)
-    (hL : LocA scripts s i p) (h1 : p.pc ≠ .idle) (h2 : p.pc ≠ .oRel) (h3 : p.pc ≠ .oOpenW)
-    (e1 : p0.script = p.script) (e2 : p0.results = p.results) (e3 : p0.ident = p.ident) (e4 : p0.wOpen = p.wOpen)
+    (hL : LocA scripts s i p) (h1 : p.pc ≠ .idle) (_h2 : p.pc ≠ .oRel) (_h3 : p.pc ≠ .oOpenW)
+    (e1 : p0.script = p.script) (e2 : p0.results = p.results) (e3 : p0.ident = p.ident)
+    (e4 : p0.wOpen = true → p.wOpen = true)
     (e5 : p0.depth = 0) (hl : s'.lock ≠ some i) (hpaths : s'.paths = s.paths) : LocA scripts s' i (finish p0 r) := by
   obtain ⟨sc, hsc, hd⟩ := hL.hist
   have hcur : ∃ op, curOp p = some op := by
@@ -101,7 +103,7 @@ theorem finish_LocA {scripts : List (List Op)} {s s' : St} {i : Nat} {p p0 : Pro
   · simpa [e1] using hL.noFs
   · simpa using e5
   · intro w hw; rw [hpaths]; exact hL.identLt w (by simpa [e3] using hw)
-  · simpa [e3, e4] using hL.openId h2 h3
+  · intro hw; rw [e3]; exact hL.openId (e4 hw)
 
 set_option hygiene false in
 /-- `stepA name pc => tac`: the step case for `pc` of the preservation of `InvA` -/
@@ -195,27 +197,33 @@ stepA InvA.s_oRel .oRel =>
 stepA InvA.s_sRel .sRel =>
   relA
   · simp
-  · refine finish_LocA _ hL ?_ ?_ ?_ rfl rfl rfl rfl rfl ?_ rfl <;> simp [hpc]
+  · refine finish_LocA _ hL ?_ ?_ ?_ rfl rfl rfl id rfl ?_ rfl <;> simp [hpc]
 stepA InvA.s_sRelErr .sRelErr =>
   relA
   · simp
-  · refine finish_LocA _ hL ?_ ?_ ?_ rfl rfl rfl rfl rfl ?_ rfl <;> simp [hpc]
+  · refine finish_LocA _ hL ?_ ?_ ?_ rfl rfl rfl id rfl ?_ rfl <;> simp [hpc]
 stepA InvA.s_iRel .iRel =>
   relA
   · simp
-  · refine finish_LocA _ hL ?_ ?_ ?_ rfl rfl rfl rfl rfl ?_ rfl <;> simp [hpc]
+  · refine finish_LocA _ hL ?_ ?_ ?_ rfl rfl rfl id rfl ?_ rfl <;> simp [hpc]
 stepA InvA.s_lCnt .lCnt =>
   simp only [Option.some.injEq] at hs; subst hs
   have hlk : s.lock ≠ some i := fun h => by have := hL.lock.2 h; simp [dep, hpc] at this
   have hd : p.depth = 0 := by simp [hL.depth, dep, hpc]
   refine InvA.step_local hA hp (p' := _) rfl rfl rfl (by simp) ?_
-  refine finish_LocA _ hL ?_ ?_ ?_ rfl rfl rfl rfl hd hlk rfl <;> simp [hpc]
+  refine finish_LocA _ hL ?_ ?_ ?_ rfl rfl rfl id hd hlk rfl <;> simp [hpc]
 stepA InvA.s_cCnt .cCnt =>
   simp only [Option.some.injEq] at hs; subst hs
   have hlk : s.lock ≠ some i := fun h => by have := hL.lock.2 h; simp [dep, hpc] at this
   have hd : p.depth = 0 := by simp [hL.depth, dep, hpc]
   refine InvA.step_local hA hp (p' := _) rfl rfl rfl (by simp) ?_
-  refine finish_LocA _ hL ?_ ?_ ?_ rfl rfl rfl rfl hd hlk rfl <;> simp [hpc]
+  refine finish_LocA _ hL ?_ ?_ ?_ rfl rfl rfl id hd hlk rfl <;> simp [hpc]
+stepA InvA.s_xClose .xClose =>
+  simp only [Option.some.injEq] at hs; subst hs
+  have hlk : s.lock ≠ some i := fun h => by have := hL.lock.2 h; simp [dep, hpc] at this
+  have hd : p.depth = 0 := by simp [hL.depth, dep, hpc]
+  refine InvA.step_local hA hp (p' := _) rfl rfl rfl (by simp) ?_
+  refine finish_LocA _ hL ?_ ?_ ?_ rfl rfl rfl (by simp) hd hlk rfl <;> simp [hpc]
 
 theorem iterAdvance_LocA {scripts : List (List Op)} {s s' : St} {i : Nat} {p p0 : Proc}
     (hL : LocA scripts s i p) (hin : p.inIter = true) (hpc : p.pc = .gRelErr ∨ p.pc = .gReadline)
@@ -233,7 +241,7 @@ stepA InvA.s_gReadline .gReadline =>
     have hlk : s.lock ≠ some i := fun h => by have := hL.lock.2 h; simp [dep, hpc, hin] at this
     have hd : p.depth = 0 := by simp [hL.depth, dep, hpc, hin]
     refine InvA.step_local hA hp (p' := _) rfl rfl rfl (by simp) ?_
-    refine finish_LocA _ hL ?_ ?_ ?_ rfl rfl rfl rfl hd hlk rfl <;> simp [hpc]
+    refine finish_LocA _ hL ?_ ?_ ?_ rfl rfl rfl id hd hlk rfl <;> simp [hpc]
   · simp only [hin, if_true, Option.some.injEq] at hs; subst hs
     have hlk : s.lock = some i := hL.lock.1 (by simp [dep, hpc, hin])
     have hd : p.depth = 1 := by simp [hL.depth, dep, hpc, hin]
@@ -248,7 +256,7 @@ stepA InvA.s_gRelErr .gRelErr =>
     simp only [release_le hd, hin, Bool.false_eq_true, if_false, Option.some.injEq] at hs; subst hs
     refine InvA.step_lock hA hp (p' := _) rfl (fun j hj => ?_) rfl (by simp) ?_
     · simp only [setProc_lock, hlk, Option.some.injEq]; constructor <;> intro h <;> simp_all
-    · refine finish_LocA _ hL ?_ ?_ ?_ rfl rfl rfl rfl rfl ?_ rfl <;> simp [hpc]
+    · refine finish_LocA _ hL ?_ ?_ ?_ rfl rfl rfl id rfl ?_ rfl <;> simp [hpc]
   · have hd : ¬ p.depth ≤ 1 := by simp [hL.depth, dep, hpc, hin]
     have hd2 : p.depth - 1 = 1 := by simp [hL.depth, dep, hpc, hin]
     have hlk : s.lock = some i := hL.lock.1 (by simp [dep, hpc, hin])
@@ -361,6 +369,7 @@ theorem InvA.step {scripts : List (List Op)} {s s' : St} {i : Nat} (hA : InvA sc
     | fCntZero => exact InvA.s_fCntZero hA hp hpc hs
     | fWfZero => exact InvA.s_fWfZero hA hp hpc hs
     | fRel => exact InvA.s_fRel hA hp hpc hs
+    | xClose => exact InvA.s_xClose hA hp hpc hs
 
 theorem InvA.init {scripts : List (List Op)} (hnf : ∀ sc ∈ scripts, Op.flush ∉ sc) (presize : Nat) :
     InvA scripts (start (init presize scripts)) := by
